@@ -9,7 +9,7 @@ import "github.com/ipfs/go-unixfsnode/verifrt"
 const overlayActive = true
 
 func setMapPerm(f func(n int, site string) []int)                { verifrt.Perm = f }
-func setFieldHook(f func(addr uintptr, write bool, site string)) { verifrt.Hook = f }
+func setFieldHook(f func(addr uintptr, kind int, site string))  { verifrt.Hook = f }
 func setSyncHook(f func(kind int, addr uintptr) int)             { verifrt.Sync = f }
 
 const (
